@@ -84,6 +84,11 @@ func runEpochs(j Job) *Result {
 				e.CurrentEpochStartTime = e.StartTime.Add(time.Duration(k0-1) * d)
 				e.CurrentEpochStartHeight = 0
 			}
+			if !e.EpochCountingStarted && r.Intn(4) == 0 {
+				// not counting yet, but the document carries a left-over counter (the genesis validation accepts it):
+				// the first tick still has to make the epoch number 1
+				e.CurrentEpoch = int64(1 + r.Intn(9))
+			}
 			eps = append(eps, e)
 		}
 		cfg.Epochs = eps
